@@ -18,6 +18,8 @@
 #include "geoslib_define.h"
 
 #include <algorithm>
+#include <csignal>
+#include <sys/time.h>
 #include <array>
 #include <memory>
 #include <numeric>
@@ -344,7 +346,7 @@ static GenPoly genPolygon(int sizeCap)
 {
   GenPoly gp;
   gp.type = G::i(0, 2);
-  if (gp.type == POLYOMINO) genPolyomino(std::max(2, std::min(16, sizeCap / 3 + 1)), gp);
+  if (gp.type == POLYOMINO) genPolyomino(std::max(2, std::min(20, sizeCap / 4 + 2)), gp);
   else if (gp.type == STAR) genStar(std::max(3, sizeCap), gp);
   else genHullPoly(std::max(3, sizeCap), gp);
   if (G::pct(35))
@@ -482,6 +484,26 @@ static uint64_t ringHash(const Ring& r)
   return h.h;
 }
 
+// A failure whose key is excluded as a known finding does not end the case: the remaining queries are still
+// checked and the case is counted as excluded at the end (unless something else, not excluded, fails first).
+struct FailAcc
+{
+  Ctx& ctx;
+  std::string exKey, exMsg;
+  explicit FailAcc(Ctx& c) : ctx(c) {}
+  bool report(const std::string& key, const std::string& msg) // true: stop the case
+  {
+    if (isExcluded(key))
+    {
+      if (exKey.empty()) { exKey = key; exMsg = msg; }
+      return false;
+    }
+    ctx.fail(key, msg);
+    return true;
+  }
+  void finish() { if (!ctx.failed() && !exKey.empty()) ctx.fail(exKey, exMsg); }
+};
+
 // =================================================================== (a) one simple polygon
 struct PipCase
 {
@@ -494,7 +516,7 @@ struct PipCase
 static PipCase genPip()
 {
   PipCase c;
-  GenPoly gp = genPolygon(G::sz(3, 130));
+  GenPoly gp = genPolygon(G::sz(3, 260));
   c.type = gp.type;
   c.sheared = gp.sheared;
   c.ring.xy = gp.xy;
@@ -640,10 +662,11 @@ static std::vector<Ring> genRings(bool period)
       rings.push_back(r);
     }
   }
+  bool withZ = G::pct(50); // half of the sets carry no vertical limits at all
   for (auto& r : rings)
   {
     r.closed = G::b();
-    genZ(r);
+    if (withZ) genZ(r);
     if (period && G::pct(50)) translate(r.xy, G::pick({-360, 360}), 0);
   }
   return rings;
@@ -713,6 +736,7 @@ static void runSet(const SetCase& c, Ctx& ctx)
   }
   ctx.label(anyZ ? "with-zlimits" : "no-zlimits");
   int maxCount = 0;
+  FailAcc acc(ctx);
   for (size_t t = 0; t + 3 < c.q.size(); t += 4)
   {
     I64 px = c.q[t], py = c.q[t + 1];
@@ -729,18 +753,19 @@ static void runSet(const SetCase& c, Ctx& ctx)
       bool got = P.inside(coor, nested != 0);
       if (got != truth)
       {
-        ctx.fail(fmt("set:%s:%s", nested ? "nested" : "union", zClass(zmode, tr.zexcl)),
-                 fmt("point fine(%lld,%lld,z=%s) belongs to %d of %d elements (each gated by its own z-interval): expected %d, "
-                     "Polygons::inside(flag_nested=%d) = %d",
-                     px, py, zmode == 2 ? std::to_string(z).c_str() : zmode == 1 ? "NA" : "none", tr.count,
-                     (int)c.rings.size(), (int)truth, nested, (int)got));
-        return;
+        if (acc.report(fmt("set:%s:%s", nested ? "nested" : "union", zClass(zmode, tr.zexcl)),
+                       fmt("point fine(%lld,%lld,z=%s) belongs to %d of %d elements (each gated by its own z-interval): expected %d, "
+                           "Polygons::inside(flag_nested=%d) = %d",
+                           px, py, zmode == 2 ? std::to_string(z).c_str() : zmode == 1 ? "NA" : "none", tr.count,
+                           (int)c.rings.size(), (int)truth, nested, (int)got)))
+          return;
       }
     }
     if (tr.zexcl) ctx.label("query-z-excluded-by-some-element");
   }
   ctx.label(fmt("max-overlap:%d", std::min(maxCount, 3)));
   ctx.nontrivial(c.rings.size() >= 2);
+  acc.finish();
 }
 VERIF_SUB(polygon_sets, SetCase, genSet, runSet);
 
@@ -934,6 +959,7 @@ static void runDbPoly(const DbPolyCase& c, Ctx& ctx)
   }
   bool anyLevel = false;
   int nsel = 0;
+  FailAcc acc(ctx);
   for (int i = 0; i < nech; i++)
   {
     double got = db->getValueByColIdx(i, icol);
@@ -981,14 +1007,15 @@ static void runDbPoly(const DbPolyCase& c, Ctx& ctx)
     for (auto& r : c.rings) if (levelClass(r, py) > 0) anyLevel = true;
     if ((got != 0.) != truth)
     {
-      ctx.fail(fmt("dbpoly:truth:%s:%s", c.flagNested ? "nested" : "union", zClass(zmode, zexcl)),
-               fmt("sample %d fine(%lld,%lld,%d): selection = %g, geometric truth = %d (flag_nested=%d flag_period=%d)", i, px, py, z,
-                   got, (int)truth, c.flagNested, c.flagPeriod));
-      return;
+      if (acc.report(fmt("dbpoly:truth:%s:%s", c.flagNested ? "nested" : "union", zClass(zmode, zexcl)),
+                     fmt("sample %d fine(%lld,%lld,%d): selection = %g, geometric truth = %d (flag_nested=%d flag_period=%d)", i, px, py, z,
+                         got, (int)truth, c.flagNested, c.flagPeriod)))
+        return;
     }
   }
   ctx.label(nsel == 0 ? "selected:none" : nsel == nech ? "selected:all" : "selected:some");
   ctx.nontrivial(anyLevel || c.rings.size() >= 2);
+  acc.finish();
 }
 VERIF_SUB(db_polygon_selection, DbPolyCase, genDbPoly, runDbPoly);
 
@@ -1046,6 +1073,40 @@ static HullCase genHull()
   genQueries(rr, G::i(5, 30), c.q);
   return c;
 }
+// CPU-time watchdog around library calls that may not terminate (normal duration: well below 1 ms)
+static std::string g_wdKey;
+static void wdHandler(int)
+{
+  Stats& s = stats();
+  std::string msg = "the library call did not return within 20 s of CPU time (normal: below 1 ms)";
+  if (!s.outPrefix.empty())
+  {
+    std::string text;
+    readFile(s.outPrefix + ".current", text);
+    writeFile(s.outPrefix + ".fail", text + "#trailer\nkey " + g_wdKey + "\nmsg " + msg + "\n");
+  }
+  s.lastFailKey = g_wdKey;
+  s.lastFailMsg = msg;
+  s.failing_runs++;
+  writeStats();
+  diag("SEARCH-FAIL/REPLAY-FAIL sub=" + s.sub + " key=" + g_wdKey + " msg=" + msg);
+  _exit(1);
+}
+struct Watchdog
+{
+  Watchdog(const std::string& key, int sec)
+  {
+    g_wdKey = key;
+    signal(SIGVTALRM, wdHandler);
+    struct itimerval t = {{0, 0}, {sec, 0}};
+    setitimer(ITIMER_VIRTUAL, &t, nullptr);
+  }
+  ~Watchdog()
+  {
+    struct itimerval t = {{0, 0}, {0, 0}};
+    setitimer(ITIMER_VIRTUAL, &t, nullptr);
+  }
+};
 typedef long double LD;
 static LD distSeg(LD ax, LD ay, LD bx, LD by, LD px, LD py)
 {
@@ -1127,6 +1188,16 @@ static void runHull(const HullCase& c, Ctx& ctx)
   }
   if (tiny) ctx.label("tiny-cross-class");
   std::string dk = tiny ? (c.dilNum ? "hull-tinycross:dilated" : "hull-tinycross:plain") : (c.dilNum ? "hull-dilated" : "hull");
+
+  // Inputs of that class can send the gift-wrapping loop of the library into an endless cycle: when the class is
+  // excluded as a known finding the library is not called at all (the case is counted as excluded); otherwise a
+  // CPU-time watchdog turns non-termination into a reported failure instead of a stuck worker.
+  if (tiny && isExcluded(dk + ":no-termination"))
+  {
+    ctx.fail(dk + ":no-termination", "class excluded as a known finding: library not called");
+    return;
+  }
+  Watchdog wd(dk + ":no-termination", 20);
 
   ctx.at("Polygons::createFromDb");
   std::unique_ptr<Polygons> P(Polygons::createFromDb(db.get(), dilate));
